@@ -22,7 +22,14 @@ import (
 
 type Rng struct{ s uint64 }
 
-func NewRng(seed uint64) *Rng { return &Rng{s: seed*0x9E3779B97F4A7C15 + 0x1234567} }
+// NewRng mixes the seed through the output function first: splitmix64 streams whose states differ by a
+// multiple of the increment are shifted copies of each other, so the raw seed must not be the state.
+func NewRng(seed uint64) *Rng {
+	r := &Rng{s: seed ^ 0x5DEECE66D1234567}
+	r.s = r.Next() ^ (seed * 0xD1342543DE82EF95)
+	r.Next()
+	return r
+}
 
 func (r *Rng) Next() uint64 {
 	r.s += 0x9E3779B97F4A7C15
